@@ -76,6 +76,7 @@ def addDyn (s : PyVal) (variant arch nevra : Str) (path sigkey category : PyVal)
   else match category with
     | .str cat =>
       if !Gen.SUPPORTED_CATEGORIES.contains cat then .error .valueError else
+      if !path.truthy then .error .valueError else          -- `if not path: raise ValueError` (fix c1ab7b7): None, "", 0, [], {} …
       match path with
       | .str p =>
         let sk : Option (Option Str) := match sigkey with
